@@ -234,7 +234,7 @@ def _run(ck, seed, quick, pool, nproc, t0):
     def mark(name):
         phases[name] = round(time.time() - t0, 1)
     tmo = 240 if quick else 3000
-    ex = ThreadPoolExecutor(16)
+    ex = ThreadPoolExecutor(5)          # at most five TLC JVMs at a time (next to the worker processes)
 
     # ---- purity on corpus files starts at once (no TLC input needed)
     files = corpus_files(40 if quick else None, seed)
@@ -260,23 +260,7 @@ def _run(ck, seed, quick, pool, nproc, t0):
     L.write_files(L.build_docs(doctable, seed, 2, root), root)
     env_job = {"seed": seed, "doctable": doctable, "root": root}
 
-    model_jobs = {"purity_model(1 thread, 3 calls, all kinds incl. the two mutating ones)": ex.submit(
-        run_calls, "purity_model", calls_cfg([1], "fresh", PURE + ["dumps_sep", "validate_addc"], [1, 4, 5, 7], 3, 3), None, 2, tmo)}
-    if quick:
-        model_jobs["fresh_2threads"] = ex.submit(run_calls, "fresh2", calls_cfg([1, 2], "fresh", PURE, ALLDOCS, 2, 1),
-                                                 None, 4, tmo)
-        model_jobs["reuse_4calls"] = ex.submit(run_calls, "reuse4", calls_cfg([1], "shared_all", PURE, ALLDOCS, 4, 4),
-                                               None, 2, tmo)
-    else:
-        model_jobs["fresh_3threads"] = ex.submit(run_calls, "fresh3", calls_cfg([1, 2, 3], "fresh", CORE, [1, 3, 5], 3, 1),
-                                                 None, 8, tmo)
-        model_jobs["fresh_2threads_2calls"] = ex.submit(run_calls, "fresh2x2", calls_cfg([1, 2], "fresh", PURE, [1, 3, 5, 7, 8], 4, 2),
-                                                        None, 4, tmo)
-        model_jobs["reuse_6calls"] = ex.submit(run_calls, "reuse6", calls_cfg([1], "shared_all", PURE, ALLDOCS, 6, 6),
-                                               None, 2, tmo)
-    neg_jobs = {name: ex.submit(run_calls, name, calls_cfg(**kw), None, 1, tmo) for name, kw, _ in NEGATIVES[:-1]}
-
-    # ---- (G) histories for re-use, schedules
+    # ---- (G) histories for re-use, schedules (first: the worker processes wait for them)
     nh = 150 if quick else 3000
     hist_f = ex.submit(run_calls, "histories",
                        calls_cfg([1], "shared_all", PURE, ALLDOCS, 8, 8, record=True, invs=("SeqEquivalent", "Emit"), props=()),
@@ -288,6 +272,23 @@ def _run(ck, seed, quick, pool, nproc, t0):
     sched_f = ex.submit(run_calls, "schedules",
                         calls_cfg([1, 2] if quick else [1, 2, 3], "fresh", [], [], 99, 3, record=True, mode="script",
                                   invs=("SeqEquivalent", "Emit"), props=("ArgsUnchanged",)), spath, 1, tmo)
+
+    # ---- (M) model checks and negative configurations
+    model_jobs = {"purity_model(1 thread, 3 calls, all kinds incl. the two mutating ones)": ex.submit(
+        run_calls, "purity_model", calls_cfg([1], "fresh", PURE + ["dumps_sep", "validate_addc"], [1, 4, 5, 7], 3, 3), None, 2, tmo)}
+    if quick:
+        model_jobs["fresh_2threads"] = ex.submit(run_calls, "fresh2", calls_cfg([1, 2], "fresh", PURE, [1, 3, 4, 5, 7, 8, 9, 10], 2, 1),
+                                                 None, 4, tmo)
+        model_jobs["reuse_4calls"] = ex.submit(run_calls, "reuse4", calls_cfg([1], "shared_all", PURE, ALLDOCS, 4, 4),
+                                               None, 2, tmo)
+    else:
+        model_jobs["fresh_3threads"] = ex.submit(run_calls, "fresh3", calls_cfg([1, 2, 3], "fresh", CORE, [1, 3, 5], 3, 1),
+                                                 None, 8, tmo)
+        model_jobs["fresh_2threads_2calls"] = ex.submit(run_calls, "fresh2x2", calls_cfg([1, 2], "fresh", PURE, [1, 3, 5, 7, 8], 4, 2),
+                                                        None, 4, tmo)
+        model_jobs["reuse_6calls"] = ex.submit(run_calls, "reuse6", calls_cfg([1], "shared_all", PURE, ALLDOCS, 6, 6),
+                                               None, 2, tmo)
+    neg_jobs = {name: ex.submit(run_calls, name, calls_cfg(**kw), None, 1, tmo) for name, kw, _ in NEGATIVES[:-1]}
 
     # ---- purity on generated documents
     texts = walks_f.result()
